@@ -42,7 +42,8 @@ CONSTANTS EMIT,      \* TRUE: print one EMIT record per completed vector
           ExhCells,  \* B*H <= ExhCells: data lattice enumerated exhaustively (kinds in ExhKinds; others: one cell)
           ExhKinds,
           Seed,      \* seed of the pseudo-random fills
-          Quarter    \* TRUE: 1/4 joins the gamma / lambda lattice (H <= 3 only)
+          Quarter,   \* TRUE: 1/4 joins the gamma / lambda lattice (H <= 3 only)
+          Reprs      \* representations of the reward sequence explored besides "float" (see section 3a)
 
 VARIABLES st, kd, p, D, R, V, W, X
 vars == <<st, kd, p, D, R, V, W, X>>
@@ -147,6 +148,39 @@ LatSeq(k, f) == CASE f = "R" -> IF k = "enc" THEN EncRsSeq ELSE RsSeq
                   [] f = "X" -> XsSeq
 Blank(k, f) == IF k = "enc" /\ f = "V" THEN 1 ELSE Zero
 
+----------------------------------------------------------------------------
+(* 3a. The REPRESENTATION of the reward sequence handed to an estimator.  The *)
+(* estimators are specified on numbers: the estimate of a reward sequence is  *)
+(* the same real-valued recurrence whatever container / element type carries  *)
+(* the rewards (grid worlds emit Python / numpy integers, vector environments *)
+(* float64 arrays, replay buffers float32 arrays).  The representation is a   *)
+(* component of the vector, chosen by TLC; the expected values do not depend  *)
+(* on it (ReprIrrelevant by construction: no operator below reads p.repr).    *)
+(*   discounted_reward_to_go / EpisodeDataset.add_sample (one episode = list) *)
+RtgReprs == {"float",          \* list of Python floats
+             "int",            \* list of Python ints
+             "npint64",        \* list of numpy int64 scalars (what Discrete-reward environments return)
+             "int64array", "int32array", "float32array", "float64array",   \* numpy arrays of that dtype
+             "mixed"}          \* list of Python ints and floats, alternating (cell (b, h) is an int iff b + h is odd)
+(*   discounted_n_step_return / compute_gae (arrays)                          *)
+ArrReprs == {"float",          \* jax float32 array
+             "int32",          \* jax int32 array
+             "npint64",        \* numpy int64 array
+             "npfloat64"}      \* numpy float64 array
+ReprsOf(k) == (CASE k = "rtg" -> RtgReprs [] k \in {"nstep", "gae"} -> ArrReprs [] OTHER -> {"float"})
+              \cap (Reprs \cup {"float"})
+IntegerRepr(r) == r \in {"int", "npint64", "int64array", "int32array", "int32"}
+(* cell (b, h) of the reward matrix is handed over as a value of an integer type *)
+TypedInt(r, b, h) == IntegerRepr(r) \/ (r = "mixed" /\ (b + h) % 2 = 1)
+IsInt(q) == q[2] = 1
+(* a representation is admissible for a vector iff every cell typed as an integer holds one *)
+ReprFits(par, rew) == \A b \in 1..par.B : \A h \in 1..par.Hs[b] : TypedInt(par.repr, b, h) => IsInt(rew[b][h])
+AsInt(par) == [b \in 1..par.B |-> [h \in 1..par.Hs[b] |-> TypedInt(par.repr, b, h)]]
+(* deviation: the result is stored with the element type of the rewards - an integer-typed *)
+(* sequence truncates every discounted value towards zero                                  *)
+Trunc(q) == I(IF q[1] >= 0 THEN q[1] \div q[2] ELSE -((-q[1]) \div q[2]))
+RTGStoredAs(r, g, asint) == [t \in 1..Len(r) |-> IF asint THEN Trunc(RTGAt(r, g, t)) ELSE RTGAt(r, g, t)]
+
 Mat(par, x) == [b \in 1..par.B |-> [h \in 1..par.Hs[b] |-> x]]
 MatSet(par, S) == {m \in [1..par.B -> [1..par.Hs[1] -> S]] : TRUE}
 
@@ -161,7 +195,7 @@ ChooseShape ==
        /\ k = "enc" => s[1] \in {1, 2, 4}
        /\ s[1] = 4 => k = "enc"              \* batch of four rows: encoder loss only
        /\ kd' = k
-       /\ \E hs \in [1..s[1] -> 1..s[2]], g \in Gs(s[2]), l \in Gs(s[2]), sc \in Scales, wt \in Weights, et \in BOOLEAN :
+       /\ \E hs \in [1..s[1] -> 1..s[2]], g \in Gs(s[2]), l \in Gs(s[2]), sc \in Scales, wt \in Weights, et \in BOOLEAN, rp \in ReprsOf(k) :
             /\ k # "rtg" => \A b \in 1..s[1] : hs[b] = s[2]
             /\ k = "rtg" => \E b \in 1..s[1] : hs[b] = s[2]
             /\ ~UsesL(k) => l = Zero
@@ -170,7 +204,7 @@ ChooseShape ==
             /\ k # "mrq" => sc = <<One, One>>
             /\ k # "enc" => (wt = <<One, One, One>> /\ et = TRUE)
             /\ p' = [B |-> s[1], Hs |-> hs, g |-> g, l |-> l, rs |-> sc[1], trs |-> sc[2],
-                     wd |-> wt[1], wr |-> wt[2], wdn |-> wt[3], et |-> et]
+                     wd |-> wt[1], wr |-> wt[2], wdn |-> wt[3], et |-> et, repr |-> rp]
   /\ st' = "shape"
   /\ UNCHANGED <<D, R, V, W, X>>
 
@@ -228,21 +262,24 @@ RECURSIVE Stack(_, _)
 Stack(rows, n) == IF n = 0 THEN <<>> ELSE Stack(rows, n - 1) \o rows[n]
 RewardToGo ==
   /\ Finish("rtg")
-  /\ Emit([kind |-> "rtg", g |-> p.g, R |-> R,
+  /\ ReprFits(p, R)
+  /\ Emit([kind |-> "rtg", g |-> p.g, R |-> R, repr |-> p.repr, asint |-> AsInt(p),
            rtg |-> Stack([b \in 1..p.B |-> RTG(R[b], p.g)], p.B),
            disc |-> Stack([b \in 1..p.B |-> [t \in 1..p.Hs[b] |-> Pow(p.g, t - 1)]], p.B)])
 
 (* return_estimates.discounted_n_step_return on a (B, H) batch *)
 NStepReturn ==
   /\ Finish("nstep")
-  /\ Emit([kind |-> "nstep", g |-> p.g, R |-> R, D |-> D,
+  /\ ReprFits(p, R)
+  /\ Emit([kind |-> "nstep", g |-> p.g, R |-> R, D |-> D, repr |-> p.repr,
            ret  |-> [b \in 1..p.B |-> NStepRet(R[b], D[b], p.g, 1)],
            disc |-> [b \in 1..p.B |-> NStepDisc(D[b], p.g, 1)]])
 
 (* gae.compute_gae on one trajectory *)
 ComputeGAE ==
   /\ Finish("gae")
-  /\ Emit([kind |-> "gae", g |-> p.g, l |-> p.l, R |-> R[1], V |-> V[1], W |-> W[1], D |-> D[1],
+  /\ ReprFits(p, R)
+  /\ Emit([kind |-> "gae", g |-> p.g, l |-> p.l, R |-> R[1], V |-> V[1], W |-> W[1], D |-> D[1], repr |-> p.repr,
            out |-> GAE(R[1], V[1], W[1], D[1], p.g, p.l)])
 
 (* a2c.prepare_a2c_batch: per-environment GAE, flattened time-major: i = (t-1) N + n *)
@@ -363,7 +400,7 @@ DepTight ==
 (* the dependency structure of one termination pattern, for perturbation tests on floats *)
 EmitDeps ==
   /\ st = "flags" /\ DEPS
-  /\ Canonical
+  /\ Canonical /\ p.repr = "float"     \* the dependency structure does not depend on the representation
   /\ st' = "deps"
   /\ UNCHANGED <<kd, p, D, R, V, W, X>>
   /\ Emit([kind |-> "deps", of |-> kd, B |-> p.B, Hs |-> p.Hs, D |-> D,
@@ -432,6 +469,10 @@ DevFlatScanIsPerEnv ==
 DevNoCutIsGAE ==
   (Ready /\ kd = "gae") => \A t \in 1..H1 :
     AdvNoCut(R[1], V[1], W[1], D[1], p.g, p.l, t) = AdvAt(R[1], V[1], W[1], D[1], p.g, p.l, t)
+(* a reward-to-go array that inherits the element type of an integer-typed reward sequence *)
+DevStoredAsRewardTypeIsRTG ==
+  (Ready /\ kd = "rtg" /\ ReprFits(p, R)) => \A b \in Rows :
+    RTGStoredAs(R[b], p.g, IntegerRepr(p.repr)) = RTG(R[b], p.g)
 (* (N,) x (N,1) broadcast of the done loss equals the per-row masked loss *)
 DevDoneBroadcastIsMasked ==
   (Ready /\ kd = "enc") => EncDoneBroadcast(p, vec) = EncoderLoss(p, vec).done
